@@ -1,7 +1,7 @@
 #!/bin/bash
 # usage: tools/file_seed.sh <Cxx> <name>  -- copy a confirmed seeded change into /verif/seeded/<name>/ and run all 20 checks against it
 set -u
-ID="$1"; NAME="$2"; WT=/tmp/wt/$ID; DIR="$(cd "$(dirname "$0")/.." && pwd)"; OUT="$DIR/seeded/$NAME"
+ID="$1"; NAME="$2"; WT=${WT_ROOT:-/tmp/wt}/$ID; DIR="$(cd "$(dirname "$0")/.." && pwd)"; OUT="$DIR/seeded/$NAME"
 mkdir -p "$OUT/demo"
 cp "$WT/patch.diff" "$OUT/patch.diff"
 [ -f "$WT/tests/demo_$ID.rs" ] && cp "$WT/tests/demo_$ID.rs" "$OUT/demo/"
